@@ -53,6 +53,14 @@ TRUSTED["C02"] = [
     "np.mean / np.std (population formula) by their definitions over a concrete number of setups",
 ]
 
+TRUSTED["C16"] = [
+    "np.argsort as a permutation that sorts (with a ghost inverse), np.argmin / np.nanargmin as first-minimiser contracts",
+    "list lemmas A7: a common permutation / a paired pop applied to two lists preserves the multiset of zipped pairs",
+    "plot_stab / plot_svPSD are abstracted; that they do not touch the selection state is a syntactic frame check of their bodies",
+    "Tk/matplotlib event delivery; the Tk main loop is 'any sequence of handler calls' (havoc of the two lists, equal length)",
+    "havoc contracts of SSI_mpe / pLSCF_mpe / FDD_mpe at the hand-over (their behaviour on a per-mode order list: C11)",
+]
+
 ASSUMPTIONS = {
     "C09": [
         "a mode-shape vector in a pole table is either entirely non-finite or entirely finite",
@@ -69,6 +77,7 @@ ASSUMPTIONS["C02"] = ["the number of setups is enumerated (2 and 3); sensors per
                       "reference part of each mode has a non-vanishing non-conjugated self product (always true for real shapes)"]
 
 NOT_DECIDED = {
+    "C16": ["that the modes finally extracted are those poles follows from C11's per-mode contract, not re-proved here"],
     "C02": ["the end-to-end SSI clause (shapes coming from SSI runs) is left to C01/C03"],
     "C12": ["the Gram/projection identity itself for the data-driven matrix is a trusted linear-algebra lemma; the proof pins the "
             "stacking order, scaling, windows and split point it depends on"],
